@@ -22,8 +22,9 @@ CONSTANTS Readers, Protos, MaxLen
 
 VARIABLES st,      \* reader -> "out" | "setup" | "play"
           proto,   \* reader -> transport it set up with ("-" when out)
+          closed,  \* ServerStream.Close has been called: every reader is gone, nobody can join
           hist, beh
-vars == <<st, proto, hist, beh>>
+vars == <<st, proto, closed, hist, beh>>
 
 In == {r \in Readers : st[r] # "out"}
 NReaders == Cardinality(In)
@@ -31,26 +32,39 @@ NActive == Cardinality({r \in In : st[r] = "play" /\ proto[r] # "mcast"})
 NMcast == Cardinality({r \in In : proto[r] = "mcast"})
 Writers == NMcast > 0
 
-Init == st = [r \in Readers |-> "out"] /\ proto = [r \in Readers |-> "-"] /\ hist = <<>> /\ beh = ""
+Init == st = [r \in Readers |-> "out"] /\ proto = [r \in Readers |-> "-"] /\ closed = FALSE
+        /\ hist = <<>> /\ beh = ""
 
 Rec(op, r, p) == [op |-> op, r |-> r, p |-> p, readers |-> NReaders', active |-> NActive',
                   mreaders |-> NMcast', writers |-> Writers']
 
-Join(r, p) == /\ st[r] = "out"
+Join(r, p) == /\ st[r] = "out" /\ ~closed /\ UNCHANGED closed
               \* readers appear in order (symmetry: reader k joins only after reader k-1 did once)
               /\ \A q \in Readers : q < r => proto[q] # "-" \/ st[q] # "out"
               /\ st' = [st EXCEPT ![r] = "setup"] /\ proto' = [proto EXCEPT ![r] = p]
               /\ hist' = Append(hist, Rec("join", r, p))
-Play(r) == /\ st[r] = "setup" /\ st' = [st EXCEPT ![r] = "play"] /\ UNCHANGED proto
+Play(r) == /\ st[r] = "setup" /\ st' = [st EXCEPT ![r] = "play"] /\ UNCHANGED <<proto, closed>>
            /\ hist' = Append(hist, Rec("play", r, proto[r]))
-Pause(r) == /\ st[r] = "play" /\ st' = [st EXCEPT ![r] = "setup"] /\ UNCHANGED proto
+Pause(r) == /\ st[r] = "play" /\ st' = [st EXCEPT ![r] = "setup"] /\ UNCHANGED <<proto, closed>>
             /\ hist' = Append(hist, Rec("pause", r, proto[r]))
-Leave(r) == /\ st[r] # "out" /\ st' = [st EXCEPT ![r] = "out"] /\ UNCHANGED proto
+Leave(r) == /\ st[r] # "out" /\ st' = [st EXCEPT ![r] = "out"] /\ UNCHANGED <<proto, closed>>
             /\ hist' = Append(hist, Rec("leave", r, proto[r]))
+
+\* ServerStream.Close: the sessions of all readers are closed (they leave), what the multicast
+\* readers shared is released
+CloseStream == /\ ~closed /\ closed' = TRUE
+               /\ st' = [r \in Readers |-> "out"] /\ UNCHANGED proto
+               /\ hist' = Append(hist, Rec("close", 0, "-"))
+\* a SETUP that reaches a closed stream is refused and leaves nothing behind - whatever the
+\* transport it asks for (the first reader that may not have joined yet tries)
+JoinRefused(r, p) == /\ closed /\ st[r] = "out" /\ UNCHANGED <<st, proto, closed>>
+                     /\ \A q \in Readers : q < r => proto[q] # "-"
+                     /\ hist' = Append(hist, Rec("join_refused", r, p))
 
 Next ==
   /\ Len(hist) < MaxLen
-  /\ \E r \in Readers : (\E p \in Protos : Join(r, p)) \/ Play(r) \/ Pause(r) \/ Leave(r)
+  /\ \/ \E r \in Readers : (\E p \in Protos : Join(r, p) \/ JoinRefused(r, p)) \/ Play(r) \/ Pause(r) \/ Leave(r)
+     \/ CloseStream
   /\ beh' = ToJson([ops |-> hist'])
 Spec == Init /\ [][Next]_vars
 
@@ -58,4 +72,5 @@ Spec == Init /\ [][Next]_vars
 AcctOK == /\ NActive <= NReaders /\ NMcast <= NReaders
           /\ (Writers <=> NMcast > 0)
           /\ \A r \in Readers : st[r] = "out" \/ proto[r] \in Protos
+          /\ (closed => (NReaders = 0 /\ ~Writers))
 =============================================================================
